@@ -167,6 +167,13 @@ def gen_macro_case(rng, cid, nmac):
 KNOWN_WITNESSES = {
     'param_shadow': ('#define x 5\n#define F(x) x+1\nF(3)\n', [], '3+1\n'),
     'dash_d_chain': ('B\n', [('A', '1'), ('B', 'A')], '1\n'),
+    # open findings reported by the round-4 agents (known_findings.json)
+    'deep_args': ('#define f(a) [a]\nf((((((1))))))\n', [], '[(((((1)))))]\n'),
+    'comment_separates': ('#define FOO 1\nFOO/**/BAR\n', [], '1 BAR\n'),
+    'char_constant_opaque': ("#define a 5\nc = 'a';\n", [], "c = 'a';\n"),
+    'blank_before_paren': ('#define add(a,b) a+b\nx = add (1,2);\n', [], 'x = 1+2;\n'),
+    # repaired: kept as regressions
+    'param_blank': ('#define f(a , b) a+b\nf(1,2)\n', [], '1+2\n'),
 }
 
 
